@@ -360,6 +360,40 @@ def check_dispatch(rep: Report, ix):
             rep.violation("C13.sde-dispatch", f"{rel}::{clsname}._make_single_step_fixed_dt::dispatch", f"{clsname} returns `{step.qualname}` for a deterministic equation")
 
 
+
+def check_rng_binding(rep: Report, ix):
+    """`pde.rng` is the generator *given to the equation*: PDEBase.__init__ must bind self.rng to
+    np.random.default_rng(<parameter rng>) with the parameter untouched (default_rng returns a Generator it is
+    handed unaltered, and seeds a new one from None / int).  A copy of the generator replays numbers the caller
+    already consumed and leaves the caller's generator unadvanced."""
+    import ast
+
+    f = ix.func("pde/pdes/base.py", "PDEBase.__init__")
+    rep.saw("functions", f.ref)
+    names = [a.arg for a in f.node.args.args + f.node.args.kwonlyargs]
+    if "rng" not in names:
+        raise AnalysisError(f"{f.ref}: parameter `rng` vanished")
+    stores = [st for st in ast.walk(f.node) if isinstance(st, ast.Assign) and any(isinstance(t, ast.Attribute) and t.attr == "rng" and isinstance(t.value, ast.Name) and t.value.id == "self" for t in st.targets)]
+    if len(stores) != 1:
+        raise AnalysisError(f"{f.ref}: expected exactly one assignment to self.rng, found {len(stores)}")
+    v = stores[0].value
+    ok_call = isinstance(v, ast.Call) and ast.unparse(v.func).endswith("random.default_rng") and len(v.args) == 1 and not v.keywords and isinstance(v.args[0], ast.Name) and v.args[0].id == "rng"
+    # the parameter must reach the call unmodified: no other binding of the name `rng` in the constructor
+    rebinds = [st for st in ast.walk(f.node) if isinstance(st, (ast.Assign, ast.AugAssign, ast.AnnAssign, ast.NamedExpr)) and any(isinstance(t, ast.Name) and t.id == "rng" and isinstance(t.ctx, ast.Store) for t in ast.walk(st))]
+    ok = ok_call and not rebinds
+    rep.oblige("PDEBase.__init__: self.rng = np.random.default_rng(<the generator given>)", ok, {"value": ast.unparse(v), "rebinds of rng": [ast.unparse(r)[:60] for r in rebinds]})
+    if not ok_call:
+        rep.violation("C13.rng", f"{f.ref}::self.rng", f"self.rng is bound to `{ast.unparse(v)}`, not to np.random.default_rng(rng): the noise is not drawn from the generator given to the equation", line=stores[0].lineno)
+    for r in rebinds:
+        rep.violation(
+            "C13.rng",
+            f"{f.ref}::rng-rebound",
+            f"`{ast.unparse(r)[:70]}` replaces the generator given by the caller before it is stored: the noise is drawn from another generator object (e.g. a copy), so the numbers are not "
+            "the successive draws of the caller's generator -- a generator used before/after or shared by two equations replays the same numbers",
+            line=r.lineno,
+        )
+
+
 def check(tier: str) -> Report:
     rep = Report("C13", tier, "proof", "abstract interpretation of the stochastic stepping closures with uninterpreted rate/variance/noise; symbolic increment identity; event-order and generator rules")
     rep.explanation = (
@@ -378,6 +412,7 @@ def check(tier: str) -> Report:
     check_gaussian_noise(rep, ix)
     check_noise_variance(rep, ix)
     check_dispatch(rep, ix)
+    check_rng_binding(rep, ix)
     rep.floor("stochastic stepping closures analysed", len(rep.analysed.get("steppers", [])), 3)
     rep.assumptions += [
         "numpy's Generator.standard_normal is trusted; bit-for-bit reproducibility follows from: same generator, one draw of the state's shape per step",
